@@ -164,6 +164,12 @@ class MultiCrossBlockRepeat(Block):
 
     def __validate(self, who: str):
         self.__validate_crossing(who)
+        from sweetpea._internal.constraint import Sequential
+        for ct in self.constraints:
+            if isinstance(ct, Sequential):
+                # Refuse here, rather than fail while sampling, when the factor is in
+                # crossings that start at different trials
+                self.factor_preamble_size(ct.factor)
 
     def __validate_crossing(self, who: str):
         dg = DesignGraph(self.design).graph
